@@ -14,7 +14,7 @@ From ClapModel Require Import ParseProofs.Safe ParseProofs.Invariant ParseProofs
                               ParseProofs.Unparse ParseProofs.UnparseProofs ParseProofs.UnparseTop
                               ParseProofs.UnparseSub ParseProofs.UnparseTrail ParseProofs.UnparseTree.
 From ClapModel Require Import Derive.DeriveModel Derive.DeriveProofs Derive.DeriveCmd Derive.DeriveArgs Derive.DeriveParse
-                              Derive.DeriveAccept Derive.DerivePost Derive.LoopInv.
+                              Derive.DeriveAccept Derive.DerivePost Derive.LoopInv Derive.DeriveFlat.
 From Coq Require Import ZArith List Bool Lia.
 From RecordUpdate Require Import RecordSet.
 Import RecordSetNotations.
@@ -80,22 +80,22 @@ Qed.
 Section Fields.
 Variable d : dinput.
 Variable bin : bytes.
-Hypothesis Hfo : fields_only (d_nodes d) = true.
+Hypothesis Hfo : flat_nodes (d_nodes d) = true.
 Hypothesis Hv : valid (with_bin (derive_cmd d) bin) = true.
 Local Notation c := (built d bin).
 
-Lemma builtg_cases a' : In a' (c_args c) -> (exists f, In f (fields_of (d_nodes d)) /\ of_field f a') \/ a' = hb.
+Lemma builtg_cases a' : In a' (c_args c) -> (exists f, In f (leaves (d_nodes d)) /\ of_field f a') \/ a' = hb.
 Proof.
-  intros H. rewrite (built_args d bin Hfo) in H. destruct (bargs_in _ _ _ H) as [a0 [H0 X]].
+  intros H. rewrite (builtf_args d bin Hfo) in H. destruct (bargs_in _ _ _ H) as [a0 [H0 X]].
   apply in_app_or in H0. destruct H0 as [H0|[<-|[]]].
   - apply in_map_iff in H0. destruct H0 as [f [<- Hf]]. left. exists f. split; [exact Hf|]. rewrite <- bf_unfold in X.
     destruct X as [X|[_ X]]; [left; exact X|right; exact X].
   - right. destruct X as [X|[X _]]; [exact X|discriminate X].
 Qed.
-Lemma builtg_of f : In f (fields_of (d_nodes d)) -> exists a', In a' (c_args c) /\ of_field f a'.
+Lemma builtg_of f : In f (leaves (d_nodes d)) -> exists a', In a' (c_args c) /\ of_field f a'.
 Proof.
-  intros Hf. rewrite (built_args d bin Hfo).
-  destruct (bargs_of (map (field_arg false) (fields_of (d_nodes d)) ++ [help_arg]) 1 (field_arg false f)) as [a' [H X]].
+  intros Hf. rewrite (builtf_args d bin Hfo).
+  destruct (bargs_of (map (field_arg false) (leaves (d_nodes d)) ++ [help_arg]) 1 (field_arg false f)) as [a' [H X]].
   { apply in_or_app. left. apply in_map. exact Hf. }
   exists a'. split; [exact H|]. rewrite <- bf_unfold in X. exact X.
 Qed.
@@ -105,20 +105,21 @@ Proof. rewrite built_eq. apply valid_assert_app. exact Hv. Qed.
 
 Lemma builtg_norel : norel c = true.
 Proof.
-  unfold norel. rewrite (built_groups d bin Hfo). apply andb_true_intro. split.
+  unfold norel. rewrite (builtf_groups d bin Hfo). apply andb_true_intro. split.
   - apply forallb_forall. intros a Ha. destruct (builtg_cases a Ha) as [[f [_ Hof]]| ->]; [|reflexivity].
     destruct (of_field_facts f a Hof) as (_ & _ & _ & _ & _ & _ & _ & _ & _ & H10 & (R1 & R2 & R3 & R4 & R5 & R6 & R7)).
     destruct (bf_rel f) as (H1 & H2 & H3 & H4 & H5 & H6 & H7).
     rewrite R1, R2, R3, R4, R5, R6, R7, H1, H2, H3, H4, H5, H6, H7, H10. reflexivity.
-  - cbn [forallb]. destruct (struct_group_facts (d_gid d) (d_nodes d)) as (H1 & H2 & H3 & H4).
-    rewrite H1, H2, H3, H4. reflexivity.
+  - apply forallb_forall. intros g [<-|Hg].
+    + destruct (struct_group_facts (d_gid d) (d_nodes d)) as (H1 & H2 & H3 & H4). rewrite H1, H2, H3, H4. reflexivity.
+    + destruct (sgroups_facts _ g Hg) as (H1 & H2 & H3 & H4). rewrite H1, H2, H3, H4. reflexivity.
 Qed.
 
 Lemma builtg_no_globals :
   no_globals (build_recursive (S (S (depth (build_self (with_bin (derive_cmd d) bin))))) (with_bin (derive_cmd d) bin)) = true.
 Proof.
   rewrite <- built_eq. cbn [build_recursive]. rewrite <- built_eq. apply no_globals_intro.
-  - rewrite (proj2 (set_subs_args _ _)), (built_subs d bin Hfo). reflexivity.
+  - rewrite (proj2 (set_subs_args _ _)), (builtf_subs d bin Hfo). reflexivity.
   - rewrite (proj1 (set_subs_args _ _)). apply forallb_forall. intros a Hin.
     destruct (builtg_cases a Hin) as [[f [_ Hof]]| ->]; [|reflexivity].
     destruct (of_field_facts f a Hof) as (_ & _ & _ & _ & _ & _ & _ & _ & G & _). rewrite G. reflexivity.
@@ -179,14 +180,14 @@ Proof.
 Qed.
 
 Theorem level_guarantees d bin toks st :
-  fields_only (d_nodes d) = true -> Forall guarded (fields_of (d_nodes d)) ->
+  flat_nodes (d_nodes d) = true -> Forall guarded (leaves (d_nodes d)) ->
   valid (with_bin (derive_cmd d) bin) = true ->
   get_matches_with (S (S (depth (built d bin)))) (built d bin) toks ps_new = ROk st ->
   enum_ok_nodes (d_nodes d) (into_inner (mt st)) = true ->
   guar_nodes (d_nodes d) (into_inner (mt st)).
 Proof.
   intros Hfo Hg Hv Hr He. set (c := built d bin) in *.
-  pose proof (builtg_app d bin Hv) as Happ. pose proof (built_no_ignore_errors d bin Hfo) as Hie.
+  pose proof (builtg_app d bin Hv) as Happ. assert (Hie : is_set s_ignore_errors (built d bin) = false) by (rewrite (builtf_is_set d bin Hfo); reflexivity).
   pose proof (assert_app_W3 c Happ) as W3.
   (* the four facts about the final state *)
   destruct (gmw_nonempty c Happ Hie _ toks st Hr) as [Wf Hne].
@@ -194,7 +195,7 @@ Proof.
   pose proof (gmw_sound (S (S (depth c))) c toks ps_new st Happ Hr Wf) as Hrel.
   destruct (precedence (S (depth c)) c toks ps_new st (assert_app_ids_distinct c Happ) Hr) as (st_c & st1 & st2 & _ & _ & _ & _ & Hprec).
   (* field by field *)
-  assert (Hfield : forall f, In f (fields_of (d_nodes d)) -> entry_ok (f_t f) (f_icase f) (f_id f) (into_inner (mt st)) = true ->
+  assert (Hfield : forall f, In f (leaves (d_nodes d)) -> entry_ok (f_t f) (f_icase f) (f_id f) (into_inner (mt st)) = true ->
             guar_node (NArg f) (into_inner (mt st))).
   { intros f Hf Hen. pose proof (proj1 (Forall_forall _ _) Hg f Hf) as [Hnu Hplain].
     destruct (builtg_of d bin Hfo f Hf) as [a' [Ha' Hof]].
@@ -221,7 +222,7 @@ Proof.
       + (* required: the validator accepted, so the argument is present *)
         assert (HR : Required c (mt st) (present (mt st)) (a_id a')) by (apply Rq_static; [exact Ha'|rewrite Freq; exact Hreq]).
         assert (Hneg : negates_reqs c (mt st) = false).
-        { unfold negates_reqs. unfold c. rewrite (built_is_set _ d bin Hfo). reflexivity. }
+        { unfold negates_reqs. unfold c. rewrite (builtf_is_set d bin Hfo). reflexivity. }
         destruct (rel_required c (mt st) _ Hrel Hneg (a_id a') HR) as [Hsat _].
         destruct (Hsat a' (W3 a' Ha')) as [[m [Gm _]]|[[e [b [Hb [Hx _]]]]|Hex]].
         * rewrite Ge in Gm. discriminate Gm.
@@ -236,14 +237,28 @@ Proof.
         * rewrite Fifs in Hr0. destruct l1; discriminate Hr0.
         * rewrite Fdef in Hres. destruct (bf_default f) as [|d0 dr]; [contradiction Hdef; reflexivity|].
           cbn [is_nil] in Hres. destruct Hres as [vs [e [_ [_ [Gx _]]]]]. rewrite Ge in Gx. discriminate Gx. }
-  (* all fields *)
+  (* all fields, through the flatten nesting *)
   clear Hprec Hrel Hte Hne. revert Hfield He. generalize (into_inner (mt st)). intros m.
-  generalize (d_nodes d) Hfo. clear. induction n as [|nd t IH]; intros Hfo Hfield He; [exact I|].
-  destruct nd as [f| |]; cbn [fields_only] in Hfo; try discriminate Hfo.
-  cbn [enum_ok_nodes enum_ok_node] in He. apply andb_prop in He. destruct He as [He1 He2].
-  cbn [guar_nodes]. split.
-  - apply Hfield; [left; reflexivity|exact He1].
-  - apply IH; [exact Hfo| |exact He2]. intros f' Hf'. apply Hfield. right. exact Hf'.
+  generalize (d_nodes d) Hfo. clear.
+  assert (H : (forall nd, flat_node nd = true ->
+                 (forall f, In f (leaves_node nd) -> entry_ok (f_t f) (f_icase f) (f_id f) m = true -> guar_node (NArg f) m) ->
+                 enum_ok_node nd m = true -> guar_node nd m)
+              /\ (forall ns, flat_nodes ns = true ->
+                 (forall f, In f (leaves ns) -> entry_ok (f_t f) (f_icase f) (f_id f) m = true -> guar_node (NArg f) m) ->
+                 enum_ok_nodes ns m = true -> guar_nodes ns m)
+              /\ (forall vs : variants, True)).
+  { apply derive_mutind.
+    - intros f _ Hfield He. apply Hfield; [left; reflexivity|exact He].
+    - intros opt gid body IH Hfl Hfield He. cbn [guar_node]. intros _. apply IH; assumption.
+    - intros opt vs _ Hfl. discriminate Hfl.
+    - intros _ _ _. exact I.
+    - intros nd IHn t IHt Hfl Hfield He. cbn [flat_nodes] in Hfl. apply andb_prop in Hfl. destruct Hfl as [F1 F2].
+      cbn [enum_ok_nodes] in He. apply andb_prop in He. destruct He as [He1 He2]. cbn [guar_nodes]. split.
+      + apply IHn; [exact F1| |exact He1]. intros f Hf. apply Hfield. cbn [leaves]. apply in_or_app. left. exact Hf.
+      + apply IHt; [exact F2| |exact He2]. intros f Hf. apply Hfield. cbn [leaves]. apply in_or_app. right. exact Hf.
+    - exact I.
+    - intros; exact I. }
+  intros n Hfl Hfield He. apply (proj1 (proj2 H) n Hfl Hfield He).
 Qed.
 
 (** * 4. the ids of a struct of fields are distinct once the command passed clap's assertions *)
@@ -283,10 +298,7 @@ Proof.
 Qed.
 
 (** * 5. [parse_top] of the generated command, any argv *)
-Lemma derive_no_binary_flag d : fields_only (d_nodes d) = true -> is_set s_no_binary_name (derive_cmd d) = false.
-Proof. intros Hfo. unfold derive_cmd. rewrite (derive_cmd_fields false d Hfo). reflexivity. Qed.
-
-Lemma parse_top_fields d argv m : fields_only (d_nodes d) = true ->
+Lemma parse_top_flat d argv m : flat_nodes (d_nodes d) = true ->
   valid (with_bin (derive_cmd d) (hd [] argv)) = true ->
   parse_top (derive_cmd d) argv = OOk m ->
   exists st, get_matches_with (S (S (depth (built d (hd [] argv))))) (built d (hd [] argv)) (tl argv) ps_new = ROk st
@@ -294,37 +306,55 @@ Lemma parse_top_fields d argv m : fields_only (d_nodes d) = true ->
 Proof.
   intros Hfo Hv H. set (bin := hd [] argv) in *.
   assert (E : parse_top (derive_cmd d) argv = do_parse (with_bin (derive_cmd d) bin) (tl argv)).
-  { unfold parse_top. rewrite (derive_no_binary_flag d Hfo). destruct argv as [|b rest]; [|reflexivity].
+  { unfold parse_top. rewrite (flat_no_binary_flag d Hfo). destruct argv as [|b rest]; [|reflexivity].
     unfold bin, with_bin. cbn [hd tl]. destruct (c_bin_name (derive_cmd d)); reflexivity. }
   rewrite E, do_parse_unfold, Hv in H. cbn [negb] in H. rewrite <- built_eq in H.
   destruct (get_matches_with (S (S (depth (built d bin)))) (built d bin) (tl argv) ps_new) as [st|e st|n] eqn:G.
   - rewrite (finish_no_globals _ st (builtg_no_globals d bin Hfo)) in H. inversion H. exists st. split; reflexivity.
-  - unfold finish_outcome in H. rewrite <- built_eq, (built_no_ignore_errors d bin Hfo) in H. discriminate H.
+  - unfold finish_outcome in H. rewrite <- built_eq, (builtf_is_set d bin Hfo) in H. discriminate H.
   - unfold finish_outcome in H. destruct n; discriminate H.
 Qed.
 
-(** EXTRACTION CANNOT FAIL AFTER A SUCCESSFUL COMMAND PARSE, ANY ARGV *)
+(** EXTRACTION CANNOT FAIL AFTER A SUCCESSFUL COMMAND PARSE, ANY ARGV -- structs of fields and flattened structs *)
+Theorem extract_total_argv_flat d argv m :
+  flat_nodes (d_nodes d) = true -> wf_nodes (d_nodes d) -> Forall guarded (leaves (d_nodes d)) ->
+  valid (with_bin (derive_cmd d) (hd [] argv)) = true ->
+  parse_top (derive_cmd d) argv = OOk m -> enum_ok_nodes (d_nodes d) m = true ->
+  exists vs, extract d m = XOk vs.
+Proof.
+  intros Hfo Hwf Hg Hv Hp He. destruct (parse_top_flat d argv m Hfo Hv Hp) as [st [Hr ->]].
+  apply extract_total; [exact Hwf|]. apply (level_guarantees d _ _ st Hfo Hg Hv Hr He).
+Qed.
+
+Theorem parse_iff_command_flat d argv :
+  flat_nodes (d_nodes d) = true -> wf_nodes (d_nodes d) -> Forall guarded (leaves (d_nodes d)) ->
+  valid (with_bin (derive_cmd d) (hd [] argv)) = true ->
+  ((exists vs, derived_parse d argv = PValue vs) <-> (exists m, cmd_parse (derive_cmd d) (d_nodes d) argv = OOk m)).
+Proof.
+  intros Hfo Hwf Hg Hv. split.
+  - intros [vs H]. apply parse_factor in H. destruct H as [m [Hp [He _]]]. exists m. unfold cmd_parse. rewrite Hp, He. reflexivity.
+  - intros [m H]. unfold cmd_parse in H. destruct (parse_top (derive_cmd d) argv) as [m'| | | |] eqn:Hp; try discriminate H.
+    destruct (enum_ok_nodes (d_nodes d) m') eqn:He; [|discriminate H].
+    destruct (extract_total_argv_flat d argv m' Hfo Hwf Hg Hv Hp He) as [vs Hx]. exists vs.
+    apply parse_factor. exists m'. auto.
+Qed.
+
+(** the struct-of-fields instances ([wf_nodes] follows from [valid]) *)
 Theorem extract_total_argv d argv m :
   fields_only (d_nodes d) = true -> Forall guarded (fields_of (d_nodes d)) ->
   valid (with_bin (derive_cmd d) (hd [] argv)) = true ->
   parse_top (derive_cmd d) argv = OOk m -> enum_ok_nodes (d_nodes d) m = true ->
   exists vs, extract d m = XOk vs.
 Proof.
-  intros Hfo Hg Hv Hp He. destruct (parse_top_fields d argv m Hfo Hv Hp) as [st [Hr ->]].
-  apply extract_total; [apply (valid_fields_wf d _ Hfo Hv)|].
-  apply (level_guarantees d _ _ st Hfo Hg Hv Hr He).
+  intros Hfo Hg Hv. destruct (fields_flat _ Hfo) as (Hfl & El & _).
+  apply (extract_total_argv_flat d argv m Hfl (valid_fields_wf d _ Hfo Hv)); [rewrite El; exact Hg|exact Hv].
 Qed.
 
-(** THE FIRST SENTENCE AS AN EQUIVALENCE: the derived parser succeeds exactly when the command's parse does *)
 Theorem parse_iff_command d argv :
   fields_only (d_nodes d) = true -> Forall guarded (fields_of (d_nodes d)) ->
   valid (with_bin (derive_cmd d) (hd [] argv)) = true ->
   ((exists vs, derived_parse d argv = PValue vs) <-> (exists m, cmd_parse (derive_cmd d) (d_nodes d) argv = OOk m)).
 Proof.
-  intros Hfo Hg Hv. split.
-  - intros [vs H]. apply parse_factor in H. destruct H as [m [Hp [He _]]]. exists m. unfold cmd_parse. rewrite Hp, He. reflexivity.
-  - intros [m H]. unfold cmd_parse in H. destruct (parse_top (derive_cmd d) argv) as [m'| | | |] eqn:Hp; try discriminate H.
-    destruct (enum_ok_nodes (d_nodes d) m') eqn:He; [|discriminate H].
-    destruct (extract_total_argv d argv m' Hfo Hg Hv Hp He) as [vs Hx]. exists vs.
-    apply parse_factor. exists m'. auto.
+  intros Hfo Hg Hv. destruct (fields_flat _ Hfo) as (Hfl & El & _).
+  apply (parse_iff_command_flat d argv Hfl (valid_fields_wf d _ Hfo Hv)); [rewrite El; exact Hg|exact Hv].
 Qed.
